@@ -46,9 +46,9 @@ ANCHORS = ['pfhedge.nn.functional:exp_utility',
            'pfhedge.nn.functional:quadratic_cvar',
            'pfhedge.nn.modules.loss:OCE.forward']
 PYTEST_WORKLOAD = True  # thorough tier also runs /repo/tests with these passive monitors attached (DESIGN.md 2.7)
-DECIDING = ["entropic_risk_measure", "expected_shortfall", "value_at_risk", "quadratic_cvar", "exp_utility", "isoelastic_utility",
+DECIDING = ["module.is_functional_at_current_parameter", "entropic_risk_measure", "expected_shortfall", "value_at_risk", "quadratic_cvar", "exp_utility", "isoelastic_utility",
             "topp", "module.EntropicLoss", "module.IsoelasticLoss", "module.OCE", "module.target_first"]
-REQUIRED_BRANCHES = ["es.pN_integral", "es.pN_fractional", "var.min", "var.max", "var.kth", "var.between", "dim.none",
+REQUIRED_BRANCHES = ["module.parameter_reassigned", "exp_utility.large_exponent.float64", "exp_utility.large_exponent.float32", "es.pN_integral", "es.pN_fractional", "var.min", "var.max", "var.kth", "var.between", "dim.none",
                      "entropic.large_ax", "qcvar.regular"]
 
 _CTX = None
@@ -376,13 +376,20 @@ def drv_functional(ctx, k, rng):
     # utilities, elementwise
     mon = "exp_utility"
     ctx.seen(mon)
-    xa = (x / scale).clamp(-20, 20)
+    # exponents over the whole range the dtype can represent (|a x| up to 600 in float64, 75 in float32), not only moderate ones
+    big = bool(rng.random() < 0.4)
+    lim = (200.0 if x.dtype == F64 else 25.0) if big else 20.0
+    if big:
+        ctx.branch("exp_utility.large_exponent." + ("float64" if x.dtype == F64 else "float32"))
+    xa = (x / scale * (lim / 3 if big else 1.0)).clamp(-lim, lim)
     au = float(pick(rng, [0.5, 1.0, 3.0]))
     u = F.exp_utility(xa, au)
     want = torch.tensor([float(-mpmath.e ** (-mpmath.mpf(au) * mpmath.mpf(v))) for v in xa.reshape(-1)[:8].to(F64).tolist()], dtype=F64)
     rel = 1e-13 if x.dtype == F64 else 1e-5
-    ctx.check(mon, bool(((u.reshape(-1)[:8].to(F64) - want).abs() <= rel * want.abs()).all()), "exp_utility",
-              "exp_utility != -exp(-a x)", sig=("exp_utility", str(x.dtype), au), x=xa.reshape(-1)[:8], a=au, got=u.reshape(-1)[:8])
+    e_ = float(torch.finfo(x.dtype).eps)
+    relv = torch.maximum(torch.full_like(want, rel), (4 + 2 * au * xa.reshape(-1)[:8].to(F64).abs()) * e_)  # the product a*x is rounded before exp
+    ctx.check(mon, bool(((u.reshape(-1)[:8].to(F64) - want).abs() <= relv * want.abs()).all()), "exp_utility",
+              "exp_utility != -exp(-a x)", sig=("exp_utility", str(x.dtype), au, big), x=xa.reshape(-1)[:8], a=au, got=u.reshape(-1)[:8])
     mon = "isoelastic_utility"
     ctx.seen(mon)
     xp = xa.abs() + 0.05
@@ -414,9 +421,16 @@ def drv_modules(ctx, k, rng):
     a = float(pick(rng, [0.5, 1.0, 2.0, 10.0]))
     p, pk = pick_p(rng, n)
     lam = float(pick(rng, [1.0, 2.0, 10.0, 100.0]))
-    mods = [EntropicRiskMeasure(a), ExpectedShortfall(p), EntropicLoss(a)]
-    if n <= 400:
-        mods.append(QuadraticCVaR(lam))
+    if rng.random() < 0.3:
+        # the parameter is a plain public attribute (shown by repr): assigning it after construction takes effect
+        mods = [EntropicRiskMeasure(3.0), ExpectedShortfall(0.37), EntropicLoss(3.0)] + ([QuadraticCVaR(7.0)] if n <= 400 else [])
+        for m_, (attr, val) in zip(mods, [("a", a), ("p", p), ("a", a), ("lam", lam)]):
+            setattr(m_, attr, val)
+        ctx.branch("module.parameter_reassigned")
+    else:
+        mods = [EntropicRiskMeasure(a), ExpectedShortfall(p), EntropicLoss(a)]
+        if n <= 400:
+            mods.append(QuadraticCVaR(lam))
     for m in mods:
         name = type(m).__name__
         out = m(x, tgt) if tk != "none" else m(x)  # functional monitors judge ERM / ES / QCVaR values on (x - target), dim 0
@@ -427,6 +441,16 @@ def drv_modules(ctx, k, rng):
         ctx.check(mon, out.shape == x.shape[1:] and torch.equal(out, out2), "target_first",
                   f"{name}(input, target) != {name}(input - target) or wrong shape {tuple(out.shape)}", sig=(name, tk, x.dim()),
                   x=x, target=tgt, got=out, want=out2)
+        # the module is its functional form at the module's *current* parameter (the functional's value is judged by the passive oracle)
+        fn_ = {"EntropicRiskMeasure": lambda d_: F.entropic_risk_measure(d_, a), "ExpectedShortfall": lambda d_: F.expected_shortfall(d_, p, dim=0),
+               "QuadraticCVaR": lambda d_: F.quadratic_cvar(d_, lam, dim=0)}.get(name)
+        if fn_ is not None:
+            mon = "module.is_functional_at_current_parameter"
+            ctx.seen(mon)
+            ref = fn_(x - tgt)
+            ctx.check(mon, out.shape == ref.shape and bool(((out == ref) | (torch.isnan(out) & torch.isnan(ref))).all()), "module_vs_functional",
+                      f"{name} with parameter {getattr(m, 'a', getattr(m, 'p', getattr(m, 'lam', None)))!r} differs from its functional form at that parameter",
+                      sig=(name, x.dim(), str(x.dtype)), got=out, want=ref)
         if name == "EntropicLoss":
             mon = "module.EntropicLoss"
             ctx.seen(mon)
@@ -445,6 +469,9 @@ def drv_modules(ctx, k, rng):
     xp = x.abs() + 0.1
     ai = float(pick(rng, [1.0, 0.5, 0.1]))
     m = IsoelasticLoss(ai)
+    if rng.random() < 0.3:
+        m = IsoelasticLoss(0.7)
+        m.a = ai
     out = m(xp + tgt, tgt) if tk != "none" else m(xp)
     d = (xp + tgt) - tgt if tk != "none" else xp
     mon = "module.IsoelasticLoss"
